@@ -414,6 +414,12 @@ pub fn direct_oracle(line: &str, trace: &str) -> Vec<String> {
                     *c -= 1;
                 }
             }
+            // C09: the automatic top-up after a delivery was processed grants credit - it does not ask the sender to drain: a
+            // flow with the drain flag in a step whose event is not the application's drain() (nor an answer to the peer's
+            // echo request, which reports the state as it is) would make a spec-abiding sender burn the credit it was just given
+            if tok.starts_with("F(") && tok.contains(",d=1,") && matches!(w[0], "acc" | "accn" | "accall" | "recv") {
+                v.push(format!("c09-topup-keeps-draining: the flow written by the automatic credit top-up at step {} carries drain=true ({})", i + 1, tok));
+            }
             if tok.starts_with("recv=err:TransferLimitExceeded") && !peer_fault {
                 if let Some(c) = credit_left {
                     if c >= 1 {
